@@ -59,10 +59,18 @@ func c01Alphabet(initThr int) (scen.Policy, []func(h *scen.History) scen.Event) 
 		return -1
 	}
 	letters := []func(h *scen.History) scen.Event{
-		func(h *scen.History) scen.Event { return scen.Event{Kind: "push", Ref: refMain, Signer: "k1", Content: "a"} },
-		func(h *scen.History) scen.Event { return scen.Event{Kind: "push", Ref: refMain, Signer: "k1", Content: "b"} },
-		func(h *scen.History) scen.Event { return scen.Event{Kind: "push", Ref: refMain, Signer: "k3", Content: "b"} },
-		func(h *scen.History) scen.Event { return scen.Event{Kind: "push", Ref: refMain, Signer: "", Content: "a"} },
+		func(h *scen.History) scen.Event {
+			return scen.Event{Kind: "push", Ref: refMain, Signer: "k1", Content: "a"}
+		},
+		func(h *scen.History) scen.Event {
+			return scen.Event{Kind: "push", Ref: refMain, Signer: "k1", Content: "b"}
+		},
+		func(h *scen.History) scen.Event {
+			return scen.Event{Kind: "push", Ref: refMain, Signer: "k3", Content: "b"}
+		},
+		func(h *scen.History) scen.Event {
+			return scen.Event{Kind: "push", Ref: refMain, Signer: "", Content: "a"}
+		},
 		func(h *scen.History) scen.Event {
 			from := lastMain(h)
 			if from >= 0 && h.Events[from].Kind != "push" {
@@ -81,8 +89,12 @@ func c01Alphabet(initThr int) (scen.Policy, []func(h *scen.History) scen.Event) 
 			p := swapped.build()
 			return scen.Event{Kind: "policy", Policy: &p, Signer: "root"}
 		},
-		func(h *scen.History) scen.Event { return scen.Event{Kind: "push", Ref: refScratch, Signer: "kx", Content: "c"} },
-		func(h *scen.History) scen.Event { return scen.Event{Kind: "propagation", Ref: refMain, Signer: "kx", Content: "b"} },
+		func(h *scen.History) scen.Event {
+			return scen.Event{Kind: "push", Ref: refScratch, Signer: "kx", Content: "c"}
+		},
+		func(h *scen.History) scen.Event {
+			return scen.Event{Kind: "propagation", Ref: refMain, Signer: "kx", Content: "b"}
+		},
 	}
 	return init.build(), letters
 }
